@@ -38,6 +38,7 @@ def describe(v, tier):
                     inductive_step="arbitrary invariant-satisfying pre-state (symbolic p, pos, color, cost), every fill level, one operation with symbolic arguments",
                     histories="all operation sequences of length <= 5 on capacity <= 3 (quick) / <= 7 on capacity <= 4 (thorough) from the empty heap, symbolic costs")
     v.assumptions = ["representation invariant I (DESIGN.md C05); pos[] of non-queued elements unconstrained",
+                     "insert precondition: the element is not queued (never queued, or already returned and inserted again)",
                      "update precondition from the statement: element not BLACK; queued cost only improves in the policy's direction; WHITE element needs room",
                      "costs are arbitrary reals (no NaN)"]
     v.outside = ["capacity > 15", "updates that worsen a queued element's cost", "NaN costs"]
